@@ -45,6 +45,15 @@ def scenario(method, how, schedule):
         obs.append({'act': act, 'state': dict(st)})
 
     def observe(kind):
+        try:
+            _observe(kind)
+        except AssertionError:
+            raise
+        except Exception as exc:      # noqa
+            # the observation call itself raised: that is what the parent sees
+            rec({'e': 'api_error', 'call': kind, 'what': type(exc).__name__})
+
+    def _observe(kind):
         if kind == 'exitcode':
             v = p.exitcode
             rec({'e': 'exitcode', 'ret': [] if v is None else [v]})
